@@ -1099,52 +1099,92 @@ func runUnconfirmedNotClaimed(c *Ctx) {
 	if nr == 0 {
 		c.Bad("unconfirmed/report/none", recv.Pos(), "found no assignment of LastVerifiedHash in the closures of RecvManifestMultiStream")
 	}
-	// (flush)
+	// (flush) - the clearing may sit in Flush or in a helper that Flush hands the marshalled copy to
 	{
+		type site struct {
+			f     *FuncInfo
+			obj   types.Object
+			from  token.Pos // where the copy comes into being in f
+			until token.Pos // in Flush: the helper call (uses behind it belong to the helper); NoPos otherwise
+		}
+		var sites []site
 		info := flush.Info()
 		var marshalled types.Object
 		var marshalPos token.Pos
+		isMarshal := func(e ast.Expr) bool {
+			if call, ok := ast.Unparen(e).(*ast.CallExpr); ok {
+				if sel, ok := ast.Unparen(call.Fun).(*ast.SelectorExpr); ok && sel.Sel.Name == "Marshal" {
+					return true
+				}
+			}
+			return false
+		}
 		InspectNoLits(flush.Body, func(m ast.Node) bool {
 			as, ok := m.(*ast.AssignStmt)
 			if !ok || len(as.Lhs) != 1 || len(as.Rhs) != 1 {
 				return true
 			}
-			if call, ok := ast.Unparen(as.Rhs[0]).(*ast.CallExpr); ok {
-				if sel, ok := ast.Unparen(call.Fun).(*ast.SelectorExpr); ok && sel.Sel.Name == "Marshal" {
-					marshalled, marshalPos = ObjOf(info, as.Lhs[0]), as.Pos()
-				}
+			if isMarshal(as.Rhs[0]) {
+				marshalled, marshalPos = ObjOf(info, as.Lhs[0]), as.Pos()
 			}
 			return true
 		})
-		cleared, clearPos := false, token.NoPos
+		if marshalled != nil {
+			sites = append(sites, site{flush, marshalled, marshalPos, token.NoPos})
+		}
 		InspectNoLits(flush.Body, func(m ast.Node) bool {
-			as, ok := m.(*ast.AssignStmt)
-			if !ok || as.Tok != token.AND_NOT_ASSIGN || len(as.Lhs) != 1 {
+			call, ok := m.(*ast.CallExpr)
+			if !ok {
 				return true
 			}
-			ix, ok := ast.Unparen(as.Lhs[0]).(*ast.IndexExpr)
-			if !ok || marshalled == nil || ObjOf(info, ix.X) != marshalled {
+			callee := p.CalleeInfo(info, call)
+			if callee == nil || callee.Body == nil || callee.Decl == nil || callee.Pkg != flush.Pkg {
 				return true
 			}
-			// under the reservation flag, on the unconfirmed index
-			flagged := false
-			for _, is := range enclosingIfs(flush.Body, as) {
-				if strings.Contains(types.ExprString(is.Cond), "hasUnconfirmed") {
-					flagged = true
+			for k, a := range call.Args {
+				if isMarshal(a) || (marshalled != nil && ObjOf(info, a) == marshalled) {
+					if po := paramObj(callee, k); po != nil {
+						sites = append(sites, site{callee, po, callee.Body.Pos(), token.NoPos})
+						for n := range sites {
+							if sites[n].f == flush {
+								sites[n].until = call.Pos()
+							}
+						}
+					}
 				}
-			}
-			if flagged && strings.Contains(types.ExprString(ix.Index), "unconfirmed") && strings.Contains(types.ExprString(as.Rhs[0]), "unconfirmed") {
-				cleared, clearPos = true, as.Pos()
 			}
 			return true
 		})
-		// before the bitmap's bytes are written into the image
-		before := cleared
-		if cleared {
-			InspectNoLits(flush.Body, func(m ast.Node) bool {
-				if call, ok := m.(*ast.CallExpr); ok && call.Pos() > marshalPos && call.Pos() < clearPos {
+		cleared, before := false, true
+		for _, st := range sites {
+			finfo := st.f.Info()
+			clearPos := token.NoPos
+			InspectNoLits(st.f.Body, func(m ast.Node) bool {
+				as, ok := m.(*ast.AssignStmt)
+				if !ok || as.Tok != token.AND_NOT_ASSIGN || len(as.Lhs) != 1 {
+					return true
+				}
+				ix, ok := ast.Unparen(as.Lhs[0]).(*ast.IndexExpr)
+				if !ok || ObjOf(finfo, ix.X) != st.obj {
+					return true
+				}
+				if reservationIndex(st.f, finfo, as, ix.Index) && reservationIndex(st.f, finfo, as, as.Rhs[0]) {
+					cleared, clearPos = true, as.Pos()
+				}
+				return true
+			})
+			// no use of the copy in front of the clearing (or, without one here, in front of the helper)
+			limit := clearPos
+			if limit == token.NoPos {
+				limit = st.until
+			}
+			if limit == token.NoPos {
+				continue
+			}
+			InspectNoLits(st.f.Body, func(m ast.Node) bool {
+				if call, ok := m.(*ast.CallExpr); ok && call.Pos() > st.from && call.Pos() < limit {
 					for _, a := range call.Args {
-						if marshalled != nil && rootObj(info, a) == marshalled {
+						if rootObj(finfo, a) == st.obj {
 							if id, ok := ast.Unparen(call.Fun).(*ast.Ident); !(ok && id.Name == "len") {
 								before = false
 							}
@@ -1154,8 +1194,59 @@ func runUnconfirmedNotClaimed(c *Ctx) {
 				return true
 			})
 		}
-		c.Check(cleared && before, "unconfirmed/flush", flush.Pos(), "Flush clears the unconfirmed chunk's bit in the copy it writes, before the copy is used",
-			"Sidecar.Flush writes the bitmap with the bit of the chunk that is under comparison still set (no `copy[i/8] &^= 1 << (i%8)` under hasUnconfirmed in front of the write): the metadata on disk go on claiming a chunk the sender may be about to replace")
+		c.Check(cleared && before, "unconfirmed/flush", flush.Pos(), "Flush clears the bit of every chunk under comparison in the copy it writes, before the copy is used",
+			"Sidecar.Flush writes the bitmap with the bit of a chunk that is under comparison still set (no `copy[i/8] &^= 1 << (i%8)` for every reserved chunk in front of the write): the metadata on disk go on claiming a chunk the sender may be about to replace")
+	}
+	// (monotone, F77) a later report does not end the reservation of an earlier one
+	{
+		nAssign := 0
+		perFunc := map[string]int{}
+		for _, f := range p.FuncsIn("internal/transfer") {
+			if f.Body == nil || f.Decl == nil || strings.HasSuffix(p.Fset.Position(f.Pos()).Filename, "_test.go") {
+				continue
+			}
+			finfo := f.Info()
+			ast.Inspect(f.Body, func(m ast.Node) bool {
+				as, ok := m.(*ast.AssignStmt)
+				if !ok {
+					return true
+				}
+				for k, l := range as.Lhs {
+					if !isReservationField(finfo, l) {
+						continue
+					}
+					nAssign++
+					perFunc[f.Name]++
+					var rhs ast.Expr
+					if len(as.Rhs) == len(as.Lhs) {
+						rhs = as.Rhs[k]
+					}
+					okAssign, why := false, ""
+					switch {
+					case f == confirm:
+						okAssign = true
+					case f == mark:
+						// only ever added to
+						if call, ok := ast.Unparen(rhs).(*ast.CallExpr); ok && len(call.Args) >= 2 {
+							if id, ok := ast.Unparen(call.Fun).(*ast.Ident); ok && id.Name == "append" && isReservationField(finfo, call.Args[0]) {
+								okAssign = true
+							}
+						}
+						why = "MarkUnconfirmed assigns the reservation anew instead of adding to it: the receiver reports on a file twice (when it begins and when the sender asks), and the second report, built after chunks of the running transfer were recorded, " +
+							"ends the reservation of the chunk the sender is re-sending - a receive cut off then leaves the damaged chunk claimed and no longer the highest"
+					default:
+						// ending one reservation: only for the chunk that is being written anew
+						okAssign = dropsOnlyWrittenChunk(p, f, finfo, as)
+						why = f.Name + " changes the reservations outside MarkUnconfirmed / Confirm and not as `the chunk that was just written is no longer reserved` (an element equal to the index parameter, called from MarkComplete / MarkCompleteIfUnset with their own index)"
+					}
+					c.Check(okAssign, fmt.Sprintf("unconfirmed/monotone/%s#%d", f.Name, perFunc[f.Name]), as.Pos(), "reservations are only added by a report, and ended only by the chunk's rewrite or the file's completion", why)
+				}
+				return true
+			})
+		}
+		if nAssign == 0 {
+			c.Bad("unconfirmed/monotone/none", mark.Pos(), "found no assignment of the sidecar's reservation field")
+		}
 	}
 	// (release)
 	nc := 0
@@ -1188,4 +1279,171 @@ func runUnconfirmedNotClaimed(c *Ctx) {
 	if nc == 0 {
 		c.Bad("unconfirmed/release/none", confirm.Pos(), "nothing calls Sidecar.Confirm: the chunk under comparison would stay unclaimed after a completed file")
 	}
+}
+
+// isReservationField: e is a selector of a Sidecar field whose name says "unconfirmed".
+func isReservationField(info *types.Info, e ast.Expr) bool {
+	sel, ok := ast.Unparen(e).(*ast.SelectorExpr)
+	if !ok || !strings.Contains(strings.ToLower(sel.Sel.Name), "unconfirmed") {
+		return false
+	}
+	v, ok := info.ObjectOf(sel.Sel).(*types.Var)
+	if !ok || !v.IsField() {
+		return false
+	}
+	t := info.TypeOf(sel.X)
+	return t != nil && strings.HasSuffix(strings.TrimPrefix(t.String(), "*"), "transfer.Sidecar")
+}
+
+// reservationIndex: e is computed from the reservation - the scalar field under its flag, or the
+// value variable of a range over the field (every reservation) with nothing but bound checks around it.
+func reservationIndex(f *FuncInfo, info *types.Info, at ast.Node, e ast.Expr) bool {
+	res := false
+	ast.Inspect(e, func(n ast.Node) bool {
+		switch x := n.(type) {
+		case *ast.SelectorExpr:
+			if isReservationField(info, x) {
+				if b, ok := info.TypeOf(x).Underlying().(*types.Basic); ok && b.Info()&types.IsInteger != 0 {
+					for _, is := range enclosingIfs(f.Body, at) {
+						if strings.Contains(strings.ToLower(types.ExprString(is.Cond)), "unconfirmed") {
+							res = true
+						}
+					}
+				}
+			}
+		case *ast.Ident:
+			o := info.ObjectOf(x)
+			if o == nil {
+				return true
+			}
+			// a range value over the field?
+			ast.Inspect(f.Body, func(m ast.Node) bool {
+				rs, ok := m.(*ast.RangeStmt)
+				if !ok || rs.Value == nil || !isReservationField(info, rs.X) || ObjOf(info, rs.Value) != o {
+					return true
+				}
+				if !(rs.Body.Pos() <= at.Pos() && at.End() <= rs.Body.End()) {
+					return true
+				}
+				// nothing leaves the loop early, and the ifs around the clearing only look at bounds
+				clean := true
+				ast.Inspect(rs.Body, func(k ast.Node) bool {
+					switch b := k.(type) {
+					case *ast.BranchStmt:
+						clean = false
+					case *ast.ReturnStmt:
+						clean = false
+					case *ast.IfStmt:
+						if b.Pos() <= at.Pos() && at.End() <= b.End() {
+							cs := types.ExprString(b.Cond)
+							if !(strings.Contains(cs, "len(") || strings.Contains(cs, "TotalChunks")) || b.Else != nil {
+								clean = false
+							}
+						}
+					}
+					return true
+				})
+				if clean {
+					res = true
+				}
+				return true
+			})
+		}
+		return true
+	})
+	return res
+}
+
+// dropsOnlyWrittenChunk: the assignment removes one element equal to an integer parameter of f, and every
+// caller of f passes its own index parameter from a Mark* method of the sidecar.
+func dropsOnlyWrittenChunk(p *Program, f *FuncInfo, info *types.Info, as *ast.AssignStmt) bool {
+	var param types.Object
+	for _, is := range enclosingIfs(f.Body, as) {
+		be, ok := ast.Unparen(is.Cond).(*ast.BinaryExpr)
+		if !ok || be.Op != token.EQL {
+			continue
+		}
+		for _, side := range []ast.Expr{be.X, be.Y} {
+			if o := ObjOf(info, side); o != nil {
+				for k := 0; ; k++ {
+					po := paramObj(f, k)
+					if po == nil {
+						break
+					}
+					if po == o {
+						param = o
+					}
+				}
+			}
+		}
+	}
+	if param == nil {
+		return false
+	}
+	// the new value is the old one without one element: append(field[:k], field[k+1:]...)
+	if len(as.Rhs) != 1 {
+		return false
+	}
+	call, ok := ast.Unparen(as.Rhs[0]).(*ast.CallExpr)
+	if !ok || len(call.Args) != 2 || call.Ellipsis == token.NoPos {
+		return false
+	}
+	for _, a := range call.Args {
+		sl, ok := ast.Unparen(a).(*ast.SliceExpr)
+		if !ok || !isReservationField(info, sl.X) {
+			return false
+		}
+	}
+	// callers
+	which := -1
+	for k := 0; ; k++ {
+		po := paramObj(f, k)
+		if po == nil {
+			break
+		}
+		if po == param {
+			which = k
+		}
+	}
+	n := 0
+	okAll := true
+	for _, g := range p.FuncsIn("internal/transfer") {
+		if g.Body == nil || strings.HasSuffix(p.Fset.Position(g.Pos()).Filename, "_test.go") {
+			continue
+		}
+		ginfo := g.Info()
+		ast.Inspect(g.Body, func(m ast.Node) bool {
+			c2, ok := m.(*ast.CallExpr)
+			if !ok || p.CalleeInfo(ginfo, c2) != f {
+				return true
+			}
+			n++
+			if which >= len(c2.Args) || !strings.Contains(g.Name, "MarkComplete") || ObjOf(ginfo, c2.Args[which]) == nil || ObjOf(ginfo, c2.Args[which]) != paramObj(g, 0) {
+				okAll = false
+			}
+			return true
+		})
+	}
+	return n > 0 && okAll
+}
+
+// paramObj: the object of the k-th parameter (names counted one by one) of f, nil when there is none.
+func paramObj(f *FuncInfo, k int) types.Object {
+	if f == nil || f.Type == nil || f.Type.Params == nil {
+		return nil
+	}
+	n := 0
+	for _, fl := range f.Type.Params.List {
+		if len(fl.Names) == 0 {
+			n++
+			continue
+		}
+		for _, nm := range fl.Names {
+			if n == k {
+				return f.Info().ObjectOf(nm)
+			}
+			n++
+		}
+	}
+	return nil
 }
